@@ -1001,3 +1001,59 @@ def comp_entry_writes(g):
             for v, gs in arms(val, guards):
                 out.append((fr, x, key, v, gs))
     return out
+
+
+def bouncers(e, cls_qname='slimta.queue.Queue'):
+    """names of the Queue methods a call of which stands for "bounce this
+    (part of a) message once": the method that hands self._bounce to a pool
+    (or calls it), `_perm_fail`, and wrappers that call such a method
+    exactly once outside any loop"""
+    import ast as _ast
+    from ..model import walk_own
+    c = merged_class(e, cls_qname)
+    out = set()
+    for mname, m in c.methods.items():
+        for x in walk_own(m.node):
+            if isinstance(x, _ast.Call) and (
+                    any(_ast.unparse(a).endswith('._bounce')
+                        for a in x.args) or
+                    _ast.unparse(x.func) == 'self._bounce'):
+                out.add(mname)
+    if '_perm_fail' in c.methods:
+        out.add('_perm_fail')
+    changed = True
+    while changed:
+        changed = False
+        for mname, m in c.methods.items():
+            if mname in out:
+                continue
+            calls = [x for x in walk_own(m.node) if isinstance(x, _ast.Call)
+                     and isinstance(x.func, _ast.Attribute) and
+                     isinstance(x.func.value, _ast.Name) and
+                     x.func.value.id == 'self' and x.func.attr in out]
+            if len(calls) != 1:
+                continue
+            in_loop = any(isinstance(l, (_ast.For, _ast.While)) and any(
+                y is calls[0] for y in _ast.walk(l))
+                for l in walk_own(m.node))
+            if not in_loop:
+                out.add(mname)
+                changed = True
+    return out
+
+
+def bounce_event(e, n, names):
+    """CFG node that is one bounce: the call (or, when the method was
+    inlined, the entry) of a bouncer; the spawn of self._bounce itself when
+    it is met outside any bouncer frame"""
+    import ast as _ast
+    if n.kind not in ('call', 'call_enter'):
+        return False
+    if e.call_name(n) in names:
+        return True
+    if n.kind == 'call' and any(_ast.unparse(a).endswith('._bounce')
+                                for a in n.ast.args):
+        # not already counted through an enclosing inlined bouncer
+        return not any(fr.ctx.func.name in names
+                       for fr in n.frame.chain() if fr.parent is not None)
+    return False
